@@ -16,7 +16,7 @@ const REP_GROUPS: &[&str] = &[
     "47", "49", "90", "94", "97", "100", "104", "107", "01", "004", "0031", "38;5;1", "38;5;196",
     "38:5:196", "38;5;4", "38;5;38", "48;5;0", "48:5:255", "48;5;5", "58;5;4", "58:5:21",
     "38;2;1;2;3", "38:2:1:2:3", "38;2;5;5;5", "38;2;38;5;1", "48;2;0;0;0", "48:2:255:255:255",
-    "58;2;4;5;38", "58:2:30:1:0", "4:0", "4:1", "4:2", "4:3", "4:4", "4:5", "10", "26", "53",
+    "58;2;4;5;38", "58:2:30:1:0", "38:2::1:2:3", "48:2:0:4:5:6", "58:2:1:7:8:9", "4:0", "4:1", "4:2", "4:3", "4:4", "4:5", "10", "26", "53",
     "99", "108", "256", "65535",
 ];
 
